@@ -112,16 +112,188 @@ def _is_call_of(*funcs):
     return lambda node: isinstance(node, ast.Call) and ast.unparse(node.func) in funcs
 
 
+# ---- normalisation: hoisted locals, renames and private helpers are inlined before a site is read ----------------
+import copy as _copy
+
+
+def _single_assign_env(fn: ast.AST) -> dict[str, ast.AST]:
+    """locals bound exactly once by a plain `name = expr` (parameters, loop / with / comprehension targets excluded)"""
+    params = {a.arg for a in fn.args.args + fn.args.kwonlyargs + fn.args.posonlyargs} if isinstance(fn, ast.FunctionDef) else set()
+    counts: dict[str, int] = {}
+    vals: dict[str, ast.AST] = {}
+
+    def bump(e, by=1):
+        for x in ast.walk(e):
+            if isinstance(x, ast.Name):
+                counts[x.id] = counts.get(x.id, 0) + by
+    for n in ast.walk(fn):
+        if isinstance(n, ast.Assign):
+            for t in n.targets:
+                bump(t)
+            if len(n.targets) == 1 and isinstance(n.targets[0], ast.Name):
+                vals[n.targets[0].id] = n.value
+        elif isinstance(n, ast.AnnAssign) and isinstance(n.target, ast.Name):
+            bump(n.target)
+            if n.value is not None:
+                vals[n.target.id] = n.value
+        elif isinstance(n, ast.AugAssign):
+            bump(n.target, 2)
+        elif isinstance(n, (ast.For, ast.AsyncFor)):
+            bump(n.target, 2)
+        elif isinstance(n, ast.comprehension):
+            bump(n.target, 2)
+        elif isinstance(n, ast.withitem) and n.optional_vars is not None:
+            bump(n.optional_vars, 2)
+        elif isinstance(n, ast.NamedExpr):
+            bump(n.target, 2)
+    return {k: v for k, v in vals.items() if counts.get(k) == 1 and k not in params}
+
+
+class _Subst(ast.NodeTransformer):
+    def __init__(self, env, depth=10):
+        self.env, self.depth = env, depth
+
+    def visit_Name(self, node):
+        if isinstance(node.ctx, ast.Load) and not getattr(node, "_closed", False) and node.id in self.env and self.depth > 0:
+            return _Subst(self.env, self.depth - 1).visit(_copy.deepcopy(self.env[node.id]))
+        return node
+
+
+def _expand(expr: ast.AST, env: dict) -> ast.AST:
+    """`expr` with every single-assignment local replaced by its defining expression (recursively)"""
+    return ast.fix_missing_locations(_Subst(env).visit(_copy.deepcopy(expr))) if env else expr
+
+
+def _close(expr: ast.AST) -> ast.AST:
+    for x in ast.walk(expr):
+        if isinstance(x, ast.Name):
+            x._closed = True          # a caller's name: never to be confused with a local of the helper it is passed to
+    return expr
+
+
+def _resolve_helper(tree: ast.Module, owner: ast.AST | None, call: ast.Call):
+    """the FunctionDef a call refers to when it is a function of the same module or a method of the same class"""
+    f = call.func
+    if isinstance(f, ast.Name):
+        for st in tree.body:
+            if isinstance(st, ast.FunctionDef) and st.name == f.id:
+                return st, False
+    if isinstance(f, ast.Attribute) and isinstance(f.value, ast.Name) and f.value.id in ("self", "cls") and owner is not None:
+        for st in owner.body:
+            if isinstance(st, ast.FunctionDef) and st.name == f.attr:
+                return st, not any(ast.unparse(d) == "staticmethod" for d in st.decorator_list)
+    return None
+
+
+def _bind(helper: ast.FunctionDef, skip_self: bool, call: ast.Call, caller_env: dict) -> dict | None:
+    params = [a.arg for a in helper.args.args]
+    if skip_self and params:
+        params = params[1:]
+    if any(isinstance(a, ast.Starred) for a in call.args) or any(k.arg is None for k in call.keywords) or len(call.args) > len(params):
+        return None
+    env = {}
+    for pn, a in zip(params, call.args):
+        env[pn] = _close(_expand(a, caller_env))
+    for k in call.keywords:
+        env[k.arg] = _close(_expand(k.value, caller_env))
+    defaults = dict(zip([a.arg for a in helper.args.args][len(helper.args.args) - len(helper.args.defaults):], helper.args.defaults))
+    for pn in params:
+        if pn not in env and pn in defaults:
+            env[pn] = defaults[pn]
+    return env
+
+
+def _owner_class(tree: ast.Module, fn: ast.FunctionDef):
+    for n in ast.walk(tree):
+        if isinstance(n, ast.ClassDef) and fn in n.body:
+            return n
+    return None
+
+
+def _effective_calls(tree: ast.Module, fn: ast.FunctionDef, want, env: dict | None = None, depth: int = 2, _seen=None) -> list[ast.Call]:
+    """every call selected by `want(call)` that `fn` performs — directly or through helpers of the same module / class — with hoisted
+    locals and helper parameters substituted, in source order"""
+    local = dict(_single_assign_env(fn))
+    if env:
+        local.update(env)
+    owner = _owner_class(tree, fn)
+    out = []
+    calls = [n for n in ast.walk(fn) if isinstance(n, ast.Call)]
+    calls.sort(key=lambda n: (n.lineno, n.col_offset))
+    seen = set(_seen or ()) | {fn.name}
+    for c in calls:
+        if want(c):
+            out.append(_expand(c, local))
+        elif depth > 0:
+            r = _resolve_helper(tree, owner, c)
+            if r is not None and r[0].name not in seen:
+                b = _bind(r[0], r[1], c, local)
+                if b is not None:
+                    out += _effective_calls(tree, r[0], want, b, depth - 1, seen)
+    return out
+
+
+def _is_where(c: ast.Call) -> bool:
+    return ast.unparse(c.func) == "torch.where"
+
+
+def _effective_wheres(tree, fn) -> list[ast.Call]:
+    return _effective_calls(tree, fn, _is_where)
+
+
+def _masklike_names(fn: ast.FunctionDef, seeds: set[str]) -> set[str]:
+    """names that can only hold the mask: the seeds and every local all of whose bindings are a mask name or a call of one"""
+    names = set(seeds)
+    binds: dict[str, list[ast.AST]] = {}
+    for n in ast.walk(fn):
+        if isinstance(n, ast.Assign) and len(n.targets) == 1 and isinstance(n.targets[0], ast.Name):
+            binds.setdefault(n.targets[0].id, []).append(n.value)
+    changed = True
+    while changed:
+        changed = False
+        for k, vs in binds.items():
+            if k not in names and all((isinstance(v, ast.Name) and v.id in names)
+                                      or (isinstance(v, ast.Call) and isinstance(v.func, ast.Name) and v.func.id in names) for v in vs):
+                names.add(k)
+                changed = True
+    return names
+
+
 _STAGE = {"apply_mask": "mask", "forward_operator": "fourier", "backward_operator": "fourier",
           "expand_operator": "expand", "reduce_operator": "reduce", "where": "mask"}
 
 
-def _stage_chain(fn: ast.FunctionDef, mask_name: str, input_name: str) -> list[str]:
+def _inline_simple_helpers(tree, fn, node, depth=3):
+    """replace calls of same-class / same-module helpers whose body is a single `return <expr>` (after inlining its locals)"""
+    if tree is None or depth == 0:
+        return node
+    owner = _owner_class(tree, fn)
+
+    class Inl(ast.NodeTransformer):
+        def visit_Call(self, c):
+            self.generic_visit(c)
+            r = _resolve_helper(tree, owner, c)
+            if r is None:
+                return c
+            rets = [x for x in ast.walk(r[0]) if isinstance(x, ast.Return)]
+            if len(rets) != 1 or rets[0].value is None:
+                return c
+            b = _bind(r[0], r[1], c, {})
+            if b is None:
+                return c
+            env = dict(_single_assign_env(r[0]))
+            env.update(b)
+            return _inline_simple_helpers(tree, r[0], _expand(rets[0].value, env), depth - 1)
+    return ast.fix_missing_locations(Inl().visit(_copy.deepcopy(node)))
+
+
+def _stage_chain(fn: ast.FunctionDef, mask_name: str, input_name: str, tree: ast.Module | None = None) -> list[str]:
     """execution-order stage list of `return f(g(h(x, …), …), …)`"""
-    rets = [s for s in fn.body if isinstance(s, ast.Return)]
+    rets = [s for s in ast.walk(fn) if isinstance(s, ast.Return)]
     if len(rets) != 1 or rets[0].value is None:
         raise Untranslatable("expected a single `return <nested call>`")
-    node = rets[0].value
+    node = _expand(rets[0].value, _single_assign_env(fn))       # named intermediate steps = the nested call
+    node = _inline_simple_helpers(tree, fn, node)               # … and so are one-line helpers
     chain = []
     while isinstance(node, ast.Call):
         fname = node.func.attr if isinstance(node.func, ast.Attribute) else getattr(node.func, "id", "?")
@@ -174,46 +346,43 @@ def _c03_extra():
 
     # apply_mask -------------------------------------------------------------------------------
     def b_apply_mask():
-        fn = find_function(parse_file(REPO / T), "apply_mask")
-        ws = _where_calls(fn)
+        tree = parse_file(REPO / T)
+        fn = find_function(tree, "apply_mask")
+        ws = _effective_wheres(tree, fn)
         if len(ws) != 1:
             raise Untranslatable(f"{len(ws)} torch.where calls in apply_mask")
-        body, _ = _where_kernel(ws[0], {"mask"}, _is_name("kspace"))
+        body, _ = _where_kernel(ws[0], _masklike_names(fn, {"mask_func"}), _is_name("kspace"))
         return _kernel_def("apply_mask_kernel", body, f"`{T}`:`apply_mask`")
 
     attempt("apply_mask_kernel", b_apply_mask, fb_kernel("apply_mask_kernel", "whereZero"))
 
     def b_apply_mask_plan():
-        fn = find_function(parse_file(REPO / T), "apply_mask")
-        drop = fwd_seed = as_is = None
-        for st in fn.body:
-            if isinstance(st, ast.If) and "isinstance(mask_func, torch.Tensor)" in ast.unparse(st.test):
-                neg = isinstance(st.test, ast.UnaryOp) and isinstance(st.test.op, ast.Not)
-                func_branch, tensor_branch = (st.body, st.orelse) if neg else (st.orelse, st.body)
-                shape_src = None
-                for s in func_branch:
-                    if isinstance(s, ast.Assign) and ast.unparse(s.targets[0]) == "shape":
-                        shape_src = s.value
-                    if isinstance(s, ast.Assign) and ast.unparse(s.targets[0]) == "mask":
-                        v = s.value
-                        if not (isinstance(v, ast.Call) and ast.unparse(v.func) == "mask_func"):
-                            raise Untranslatable("mask is not `mask_func(…)`")
-                        kw = {k.arg: ast.unparse(k.value) for k in v.keywords}
-                        pos = [ast.unparse(a) for a in v.args]
-                        shape_arg = kw.get("shape", pos[0] if pos else None)
-                        seed_arg = kw.get("seed", pos[1] if len(pos) > 1 else None)
-                        if shape_arg != "shape":
-                            raise Untranslatable("mask_func is not called with `shape`")
-                        fwd_seed = seed_arg == "seed"
-                if shape_src is None:
-                    raise Untranslatable("assignment to `shape` not found")
-                lo, hi = _slice_bounds(shape_src)
-                if lo < 0 or hi != "none":
-                    raise Untranslatable("mask shape is not `kspace.shape[n:]`")
-                drop = lo
-                as_is = any(isinstance(s, ast.Assign) and ast.unparse(s.targets[0]) == "mask"
-                            and ast.unparse(s.value) == "mask_func" for s in tensor_branch)
-        if drop is None:
+        tree = parse_file(REPO / T)
+        fn = find_function(tree, "apply_mask")
+        env = _single_assign_env(fn)
+        masks = _masklike_names(fn, {"mask_func"})
+        calls = [n for n in ast.walk(fn) if isinstance(n, ast.Call) and isinstance(n.func, ast.Name) and n.func.id == "mask_func"]
+        if len(calls) != 1:
+            raise Untranslatable(f"{len(calls)} calls of the mask function in apply_mask")
+        v = calls[0]
+        kw = {k.arg: _expand(k.value, env) for k in v.keywords}
+        pos = [_expand(a, env) for a in v.args]
+        shape_arg = kw.get("shape", pos[0] if pos else None)
+        seed_arg = kw.get("seed", pos[1] if len(pos) > 1 else None)
+        if shape_arg is None:
+            raise Untranslatable("mask_func is called without a shape")
+        lo, hi = _slice_bounds(shape_arg)
+        if lo < 0 or hi != "none":
+            raise Untranslatable("mask shape is not `kspace.shape[n:]`")
+        fwd_seed = seed_arg is not None and ast.unparse(seed_arg) == "seed"
+        # a tensor mask is used as is: the variable the `where` tests is bound to the parameter itself on the tensor path
+        ws = _effective_wheres(tree, fn)
+        tested = ws[0].args[0].left.id if len(ws) == 1 and isinstance(ws[0].args[0], ast.Compare) and isinstance(ws[0].args[0].left, ast.Name) else None
+        as_is = tested in masks and (tested == "mask_func" or any(
+            isinstance(n, ast.Assign) and len(n.targets) == 1 and ast.unparse(n.targets[0]) == tested and ast.unparse(n.value) == "mask_func"
+            for n in ast.walk(fn)))
+        guarded = any(isinstance(n, (ast.If, ast.IfExp)) and "isinstance(mask_func, torch.Tensor)" in ast.unparse(n.test) for n in ast.walk(fn))
+        if not guarded:
             raise Untranslatable("`isinstance(mask_func, torch.Tensor)` dispatch not found")
         asserts = any(isinstance(s, ast.Expr) and isinstance(s.value, ast.Call)
                       and ast.unparse(s.value.func) == "assert_complex"
@@ -223,7 +392,7 @@ def _c03_extra():
         b = lambda x: "true" if x else "false"  # noqa: E731
         return (f"/-- translated from `{T}`:`apply_mask`: (leading axes dropped from kspace.shape for the mask "
                 f"function, seed forwarded, tensor mask used as is, assert_complex(kspace, complex_last=True)) -/\n"
-                f"def apply_mask_plan : Nat × Bool × Bool × Bool := ({drop}, {b(fwd_seed)}, {b(as_is)}, {b(asserts)})\n")
+                f"def apply_mask_plan : Nat × Bool × Bool × Bool := ({lo}, {b(fwd_seed)}, {b(as_is)}, {b(asserts)})\n")
 
     attempt("apply_mask_plan", b_apply_mask_plan,
             "def apply_mask_plan : Nat × Bool × Bool × Bool := (1, true, true, true)\n")
@@ -281,49 +450,55 @@ def _c03_extra():
 
     # apply_padding ----------------------------------------------------------------------------
     def b_apply_padding():
-        fn = find_function(parse_file(REPO / T), "apply_padding")
-        ws = _where_calls(fn)
+        tree = parse_file(REPO / T)
+        fn = find_function(tree, "apply_padding")
+        ws = _effective_wheres(tree, fn)
         if len(ws) != 1:
             raise Untranslatable(f"{len(ws)} torch.where calls in apply_padding")
-        body, _ = _where_kernel(ws[0], {"padding"}, _is_name("data"))
+        body, _ = _where_kernel(ws[0], _masklike_names(fn, {"padding"}), _is_name("data"))
         return _kernel_def("apply_padding_kernel", body, f"`{T}`:`apply_padding`")
 
     attempt("apply_padding_kernel", b_apply_padding, fb_kernel("apply_padding_kernel", "wherePad"))
 
     # MRILogLikelihood.forward -----------------------------------------------------------------
     def b_loglik():
-        fn = find_function(parse_file(REPO / RIM), "MRILogLikelihood.forward")
-        ws = _where_calls(fn)
+        tree = parse_file(REPO / RIM)
+        fn = find_function(tree, "MRILogLikelihood.forward")
+        ws = _effective_wheres(tree, fn)
         if len(ws) != 2:
             raise Untranslatable(f"{len(ws)} torch.where calls in MRILogLikelihood.forward")
         is_fwd = _is_call_of("self.forward_operator")
         is_data = _is_name("masked_kspace")
+        masks = _masklike_names(fn, {"sampling_mask"})
         bodies = {}
         for w in ws:
-            body, data = _where_kernel(w, {"sampling_mask"}, lambda n: is_fwd(n) or is_data(n))
+            body, data = _where_kernel(w, masks, lambda n: is_fwd(n) or is_data(n))
             bodies["forward" if data.startswith("self.forward_operator") else "data"] = body
         if set(bodies) != {"forward", "data"}:
             raise Untranslatable("the two where calls do not mask the prediction and the data")
-        # raw (un-masked) uses of the data / the prediction
-        inside = set()
-        for w in ws:
-            for n in ast.walk(w.args[2]):
-                inside.add(id(n))
-        parents = {}
-        for p in ast.walk(fn):
-            for ch in ast.iter_child_nodes(p):
-                parents[id(ch)] = p
+        # raw (un-masked) uses of the data / the prediction in what reaches the backward operator (hoisted locals inlined)
+        bcalls = _effective_calls(tree, fn, _is_call_of("self.backward_operator"))
+        if len(bcalls) != 1 or not bcalls[0].args:
+            raise Untranslatable(f"{len(bcalls)} backward_operator calls in MRILogLikelihood.forward")
+        root = bcalls[0].args[0]
         raw = 0
-        for n in ast.walk(fn):
-            if id(n) in inside:
-                continue
-            if isinstance(n, ast.Name) and n.id == "masked_kspace" and isinstance(n.ctx, ast.Load):
-                par = parents.get(id(n))
-                if isinstance(par, ast.Attribute) and par.attr in ("dtype", "device", "shape", "ndim"):
-                    continue
+
+        def walk(n, shielded, parent):
+            nonlocal raw
+            if isinstance(n, ast.Name) and n.id == "masked_kspace" and isinstance(n.ctx, ast.Load) and not shielded:
+                if not (isinstance(parent, ast.Attribute) and parent.attr in ("dtype", "device", "shape", "ndim")):
+                    raw += 1
+            if is_fwd(n) and not shielded:
                 raw += 1
-            if is_fwd(n):
-                raw += 1
+            if isinstance(n, ast.Call) and _is_where(n) and len(n.args) == 3:
+                walk(n.func, shielded, n)
+                walk(n.args[0], shielded, n)
+                for br in n.args[1:]:           # the data branch of a where is masked; a hoisted constant branch is not data
+                    walk(br, True, n)
+                return
+            for ch in ast.iter_child_nodes(n):
+                walk(ch, shielded, n)
+        walk(root, False, None)
         return (_kernel_def("loglik_forward_kernel", bodies["forward"], f"`{RIM}`:`MRILogLikelihood.forward` (mr_forward)")
                 + _kernel_def("loglik_data_kernel", bodies["data"], f"`{RIM}`:`MRILogLikelihood.forward` (masked data)")
                 + "/-- uses of `masked_kspace` / `self.forward_operator(…)` outside the data branch of a `torch.where` -/\n"
@@ -335,16 +510,18 @@ def _c03_extra():
 
     # ConjGrad._A_star_op ----------------------------------------------------------------------
     def b_astar():
-        fn = find_function(parse_file(REPO / CG), "ConjGrad._A_star_op")
-        ws = _where_calls(fn)
+        tree = parse_file(REPO / CG)
+        fn = find_function(tree, "ConjGrad._A_star_op")
+        ws = _effective_wheres(tree, fn)
         if len(ws) != 1:
             raise Untranslatable(f"{len(ws)} torch.where calls in ConjGrad._A_star_op")
-        body, _ = _where_kernel(ws[0], {"sampling_mask"}, _is_name("kspace"))
+        body, _ = _where_kernel(ws[0], _masklike_names(fn, {"sampling_mask"}), _is_name("kspace"))
         return _kernel_def("a_star_kernel", body, f"`{CG}`:`ConjGrad._A_star_op`")
 
     def b_astar_stages():
-        fn = find_function(parse_file(REPO / CG), "ConjGrad._A_star_op")
-        stages = _stage_chain(fn, "sampling_mask", "kspace")
+        tree = parse_file(REPO / CG)
+        fn = find_function(tree, "ConjGrad._A_star_op")
+        stages = _stage_chain(fn, "sampling_mask", "kspace", tree)
         return _stages_def("a_star_stages", stages, f"`{CG}`:`ConjGrad._A_star_op`")
 
     attempt("a_star_kernel", b_astar, fb_kernel("a_star_kernel", "whereZero"))
@@ -352,13 +529,15 @@ def _c03_extra():
 
     # engine operators -------------------------------------------------------------------------
     def b_fwd():
-        fn = find_function(parse_file(REPO / ENG), "MRIModelEngine._forward_operator")
-        return _stages_def("forward_operator_stages", _stage_chain(fn, "sampling_mask", "image"),
+        tree = parse_file(REPO / ENG)
+        fn = find_function(tree, "MRIModelEngine._forward_operator")
+        return _stages_def("forward_operator_stages", _stage_chain(fn, "sampling_mask", "image", tree),
                            f"`{ENG}`:`MRIModelEngine._forward_operator`")
 
     def b_bwd():
-        fn = find_function(parse_file(REPO / ENG), "MRIModelEngine._backward_operator")
-        return _stages_def("backward_operator_stages", _stage_chain(fn, "sampling_mask", "kspace"),
+        tree = parse_file(REPO / ENG)
+        fn = find_function(tree, "MRIModelEngine._backward_operator")
+        return _stages_def("backward_operator_stages", _stage_chain(fn, "sampling_mask", "kspace", tree),
                            f"`{ENG}`:`MRIModelEngine._backward_operator`")
 
     attempt("forward_operator_stages", b_fwd, "def forward_operator_stages : List Stage := fwdStages\n")
@@ -383,11 +562,16 @@ def _slice_bounds(v: ast.AST) -> tuple[int, str]:
 
 def _shape_slice_build(k: Kernel, fn: ast.FunctionDef) -> str:
     """`shape = np.array(kspace.shape)[1:]` -> the slice of kspace.shape shown to the mask function"""
-    for st in ast.walk(fn):
-        if isinstance(st, ast.Assign) and ast.unparse(st.targets[0]) == "shape":
-            lo, hi = _slice_bounds(st.value)
-            return f"def {k.name} : Int × Option Int := (({lo} : Int), ({hi} : Option Int))\n"
-    raise Untranslatable("assignment to `shape` not found")
+    env = _single_assign_env(fn)
+    calls = [n for n in ast.walk(fn) if isinstance(n, ast.Call) and isinstance(n.func, ast.Name) and n.func.id == "mask_func"]
+    if len(calls) != 1:
+        raise Untranslatable(f"{len(calls)} calls of the mask function")
+    kw = {a.arg: a.value for a in calls[0].keywords}
+    arg = kw.get("shape", calls[0].args[0] if calls[0].args else None)
+    if arg is None:
+        raise Untranslatable("mask_func is called without a shape")
+    lo, hi = _slice_bounds(_expand(arg, env))
+    return f"def {k.name} : Int × Option Int := (({lo} : Int), ({hi} : Option Int))\n"
 
 
 register("C03", [
@@ -419,6 +603,9 @@ def _masky(node: ast.AST) -> bool:
         return _masky(node.operand)
     if isinstance(node, ast.BinOp) and isinstance(node.op, ast.Sub):
         return _masky(node.right) and _number(node.left) is not None
+    if isinstance(node, ast.Compare) and len(node.ops) == 1 and isinstance(node.ops[0], (ast.Eq, ast.NotEq, ast.Gt)) \
+            and _masky(node.left) and _number(node.comparators[0]) is not None:
+        return True                                  # `(mask != 0)`, `(mask == 0)`, `(mask > 0)`
     if isinstance(node, ast.Call) and isinstance(node.func, ast.Attribute) and node.func.attr in (
             "float", "to", "bool", "int", "type", "unsqueeze", "squeeze", "expand", "expand_as", "clone", "detach"):
         return _masky(node.func.value)
@@ -451,15 +638,25 @@ def scan_nn_sites(repo) -> list[dict]:
         except Untranslatable:
             continue
 
+        envs = [{}]
+
         def visit(node, qual):
             for ch in ast.iter_child_nodes(node):
                 if isinstance(ch, (ast.FunctionDef, ast.AsyncFunctionDef, ast.ClassDef)):
+                    envs.append(_single_assign_env(ch) if isinstance(ch, ast.FunctionDef) else {})
                     visit(ch, (qual + "." if qual else "") + ch.name)
+                    envs.pop()
                 else:
                     handle(ch, qual)
                     visit(ch, qual)
 
-        def handle(n, qual):
+        def handle(n0, qual):
+            n = n0
+            if isinstance(n0, ast.Call) and envs[-1]:
+                # hoisted locals (`not_sampled = mask == 0`, `zero = torch.tensor(…)`, named intermediate steps) are inlined
+                n = ast.Call(func=n0.func, args=[_expand(a, envs[-1]) for a in n0.args],
+                             keywords=[ast.keyword(arg=k.arg, value=_expand(k.value, envs[-1])) for k in n0.keywords])
+                ast.copy_location(n, n0)
             if isinstance(n, ast.Call):
                 fname = ast.unparse(n.func)
                 if fname == "torch.where" and len(n.args) == 3 and any(_masky(x) for x in ast.walk(n.args[0])):
@@ -485,7 +682,7 @@ def scan_nn_sites(repo) -> list[dict]:
                                 if any(isinstance(x, ast.Slice) for x in ast.walk(data)):
                                     form = '.flagged "only a slice of the operand is masked"'
                                 sites.append({"file": rel, "func": qual, "form": form, "kind": "where",
-                                              "operand": ast.unparse(data), "mask": ast.unparse(pred.left),
+                                              "operand": ast.unparse(n0.args[2] if ka is not None else n0.args[1]), "mask": ast.unparse(pred.left),
                                               "zero": _zero_dtype_of(zero)})
                                 return
                     sites.append({"file": rel, "func": qual, "form": '.flagged "torch.where with an unrecognised predicate/branches"',
@@ -509,8 +706,8 @@ def scan_nn_sites(repo) -> list[dict]:
                 elif fname in ("torch.mul", "torch.multiply") and any(_masky(x) for x in n.args):
                     sites.append({"file": rel, "func": qual, "form": '.flagged "multiplication by the mask"', "kind": "mul",
                                   "operand": ast.unparse(n.args[0]), "mask": ast.unparse(n.args[1]), "zero": ""})
-            elif isinstance(n, ast.BinOp) and isinstance(n.op, ast.Mult) and (_masky(n.left) or _masky(n.right)):
-                m, d = (n.left, n.right) if _masky(n.left) else (n.right, n.left)
+            elif isinstance(n, ast.BinOp) and isinstance(n.op, ast.Mult) and (_masky(_expand(n.left, envs[-1])) or _masky(_expand(n.right, envs[-1]))):
+                m, d = (n.left, n.right) if _masky(_expand(n.left, envs[-1])) else (n.right, n.left)
                 sites.append({"file": rel, "func": qual, "form": '.flagged "multiplication by the mask"', "kind": "mul",
                               "operand": ast.unparse(d), "mask": ast.unparse(m), "zero": ""})
             elif isinstance(n, ast.AugAssign) and isinstance(n.op, ast.Mult) and _masky(n.value):
@@ -680,34 +877,108 @@ def _base_name(e: ast.AST):
     return e.id if isinstance(e, ast.Name) else None
 
 
-def func_facts(tree: ast.Module, fn: ast.FunctionDef, tensor_params: list[str]) -> dict:
+_MODE_CALLS = {"torch.is_grad_enabled", "torch.is_inference_mode_enabled", "torch.is_autocast_enabled", "torch.broadcast_shapes"}
+_TENSOR_PROBES = {"shape", "dtype", "ndim", "requires_grad", "is_leaf", "_version"}
+_TENSOR_PROBE_CALLS = {"size", "numel", "dim", "all", "any", "sum", "item", "is_contiguous", "stride", "data_ptr", "nonzero",
+                       "count_nonzero", "max", "min", "mean", "element_size"}
+
+
+def func_facts(tree: ast.Module, fn: ast.FunctionDef, tensor_params: list[str], depth: int = 2, _seen=None) -> dict:
+    """semantic facts of a function body, private helpers of the same module / class followed:
+    unguardedInputReturns  returns that hand back a tensor parameter itself outside an `if <param> is None` guard
+    stateWrites            global / nonlocal, writes to self.* / module-level containers / function attributes / mutable defaults,
+                           caching decorators
+    inplaceOnArgs          subscript / augmented assignments, `…_()` methods and `out=` on a tensor argument
+    dataBranches           conditions / loop ranges that depend on a tensor's shape, dtype or values, or on the training /
+                           grad / inference mode (size thresholds, chunking, mode-dependent paths)"""
     containers = _module_containers(tree)
-    params = [a.arg for a in fn.args.args + fn.args.kwonlyargs if a.arg != "self"]
+    params = [a.arg for a in fn.args.args + fn.args.kwonlyargs if a.arg not in ("self", "cls")]
     defaults = dict(zip([a.arg for a in fn.args.args][len(fn.args.args) - len(fn.args.defaults):], fn.args.defaults))
     mutable_defaults = {p for p, d in defaults.items()
                         if isinstance(d, (ast.Dict, ast.List, ast.Set)) or (isinstance(d, ast.Call) and ast.unparse(d.func) in ("dict", "list", "set"))}
+    env = _single_assign_env(fn)
     tensors = set(tensor_params)
-    for n in ast.walk(fn):                       # locals read from the sample dict are tensors of the caller
-        if (isinstance(n, ast.Assign) and len(n.targets) == 1 and isinstance(n.targets[0], ast.Name)
-                and isinstance(n.value, ast.Subscript) and isinstance(n.value.value, ast.Name) and n.value.value.id in params):
-            tensors.add(n.targets[0].id)
-    f = {"returns": 0, "inputReturns": 0, "stateWrites": 0, "inplaceOnArgs": 0, "ifs": 0, "loops": 0}
+    for n in ast.walk(fn):                       # locals read from the sample dict, and plain renames of tensors, are tensors
+        if isinstance(n, ast.Assign) and len(n.targets) == 1 and isinstance(n.targets[0], ast.Name):
+            v = n.value
+            if isinstance(v, ast.Subscript) and isinstance(v.value, ast.Name) and v.value.id in params:
+                tensors.add(n.targets[0].id)
+    changed = True
+    while changed:
+        changed = False
+        for n in ast.walk(fn):
+            if (isinstance(n, ast.Assign) and len(n.targets) == 1 and isinstance(n.targets[0], ast.Name)
+                    and isinstance(n.value, ast.Name) and n.value.id in tensors and n.targets[0].id not in tensors):
+                tensors.add(n.targets[0].id)
+                changed = True
+    f = {"unguardedInputReturns": 0, "stateWrites": 0, "inplaceOnArgs": 0, "dataBranches": 0}
+    parents = {}
+    for p_ in ast.walk(fn):
+        for ch in ast.iter_child_nodes(p_):
+            parents[id(ch)] = p_
+
+    def tensorish(e):
+        b = e
+        while isinstance(b, (ast.Subscript, ast.Attribute, ast.Call)):
+            b = b.func if isinstance(b, ast.Call) else b.value
+        if isinstance(b, ast.Name) and b.id in tensors:
+            return True
+        return isinstance(e, ast.Subscript) and isinstance(e.value, ast.Name) and e.value.id in params and e.value.id not in tensors
+
+    def data_dependent(test):
+        t = _expand(test, env)
+        for x in ast.walk(t):
+            if isinstance(x, ast.Attribute):
+                if x.attr == "training":
+                    return True
+                if x.attr in _TENSOR_PROBES and tensorish(x.value):
+                    return True
+            if isinstance(x, ast.Call):
+                fn_txt = ast.unparse(x.func)
+                if fn_txt in _MODE_CALLS:
+                    return True
+                if isinstance(x.func, ast.Attribute) and x.func.attr in _TENSOR_PROBE_CALLS and tensorish(x.func.value):
+                    return True
+                if fn_txt == "len" and x.args and tensorish(x.args[0]):
+                    return True
+            if isinstance(x, ast.Compare) and any(tensorish(y) and isinstance(y, ast.Name) for y in [x.left] + x.comparators) \
+                    and not all(isinstance(o, (ast.Is, ast.IsNot)) for o in x.ops):
+                return True
+        return False
+
+    def none_guarded(node):
+        p_ = parents.get(id(node))
+        while p_ is not None:
+            if isinstance(p_, (ast.If, ast.IfExp)) and isinstance(p_.test, ast.Compare) and len(p_.test.ops) == 1 \
+                    and isinstance(p_.test.ops[0], ast.Is) and ast.unparse(p_.test.comparators[0]) == "None":
+                return True
+            p_ = parents.get(id(p_))
+        return False
+
+    def delivered(v):
+        if isinstance(v, ast.IfExp):
+            return delivered(v.body) + delivered(v.orelse)
+        if isinstance(v, ast.Tuple) and v.elts:
+            return delivered(v.elts[0])
+        return [v]
     for dec in fn.decorator_list:
         d = ast.unparse(dec)
         if "cache" in d or "memo" in d:
             f["stateWrites"] += 1
     fname = fn.name
+    owner = _owner_class(tree, fn)
+    seen = set(_seen or ()) | {fn.name}
     for n in ast.walk(fn):
-        if isinstance(n, ast.Return):
-            f["returns"] += 1
-            v = n.value
-            first = v.elts[0] if isinstance(v, ast.Tuple) and v.elts else v
-            if isinstance(first, ast.Name) and first.id in tensor_params:
-                f["inputReturns"] += 1
-        elif isinstance(n, (ast.If, ast.IfExp)):
-            f["ifs"] += 1
-        elif isinstance(n, (ast.For, ast.While, ast.ListComp, ast.GeneratorExp, ast.DictComp, ast.SetComp)):
-            f["loops"] += 1
+        if isinstance(n, ast.Return) and n.value is not None:
+            for v in delivered(n.value):
+                if isinstance(v, ast.Name) and v.id in tensor_params and not none_guarded(n):
+                    f["unguardedInputReturns"] += 1
+        elif isinstance(n, (ast.If, ast.IfExp, ast.While)):
+            if data_dependent(n.test):
+                f["dataBranches"] += 1
+        elif isinstance(n, (ast.For, ast.comprehension)):
+            if data_dependent(n.iter) or any(data_dependent(c) for c in getattr(n, "ifs", [])):
+                f["dataBranches"] += 1
         elif isinstance(n, (ast.Global, ast.Nonlocal)):
             f["stateWrites"] += 1
         tgts = []
@@ -739,15 +1010,26 @@ def func_facts(tree: ast.Module, fn: ast.FunctionDef, tensor_params: list[str]) 
             for kw in n.keywords:
                 if kw.arg == "out" and isinstance(kw.value, ast.Name) and kw.value.id in tensors:
                     f["inplaceOnArgs"] += 1
+            if depth > 0:                     # follow helpers of the same module / class with the tensor-ness of their arguments
+                r = _resolve_helper(tree, owner, n)
+                if r is not None and r[0].name not in seen:
+                    hp = [a.arg for a in r[0].args.args][1 if r[1] else 0:]
+                    bound = dict(zip(hp, n.args))
+                    bound.update({k.arg: k.value for k in n.keywords if k.arg})
+                    ht = [pn for pn, a in bound.items() if tensorish(a) or (isinstance(a, ast.Compare) and any(tensorish(y) for y in ast.walk(a)))]
+                    sub = func_facts(tree, r[0], ht, depth - 1, seen)
+                    for k_ in ("stateWrites", "inplaceOnArgs", "dataBranches"):
+                        f[k_] += sub[k_]
     return f
 
 
 def _facts_lean(rows: list[tuple[str, dict]]) -> str:
     body = ",\n".join(
-        f"  {{ name := {_lean_str(n)}, returns := {f['returns']}, inputReturns := {f['inputReturns']}, stateWrites := {f['stateWrites']}, "
-        f"inplaceOnArgs := {f['inplaceOnArgs']}, ifs := {f['ifs']}, loops := {f['loops']} }}" for n, f in rows)
-    return ("/-- structural facts of the functions that decide the property (returns, returns of an input, state written, in-place "
-            "updates of arguments, branches, loops), read from the AST -/\ndef func_facts : List FuncFacts := [\n" + body + "\n]\n")
+        f"  {{ name := {_lean_str(n)}, unguardedInputReturns := {f['unguardedInputReturns']}, stateWrites := {f['stateWrites']}, "
+        f"inplaceOnArgs := {f['inplaceOnArgs']}, dataBranches := {f['dataBranches']} }}" for n, f in rows)
+    return ("/-- semantic facts of the functions that decide the property, helpers followed: returns of an input outside a `is None` guard, "
+            "state written, in-place updates of arguments, conditions / loop ranges depending on tensor shape / dtype / values or on the "
+            "training / grad mode -/\ndef func_facts : List FuncFacts := [\n" + body + "\n]\n")
 
 
 def _mul_kind(node: ast.BinOp, other: ast.AST, parents: dict) -> str:
@@ -833,37 +1115,62 @@ def scan_data_sites(repo) -> list[dict]:
     return sites
 
 
+def _norm_ifexp(e: ast.AST) -> str:
+    """text of an expression with `a if not c else b` written as `b if c else a` (one decision tree for both spellings)"""
+    class N(ast.NodeTransformer):
+        def visit_IfExp(self, n):
+            self.generic_visit(n)
+            if isinstance(n.test, ast.UnaryOp) and isinstance(n.test.op, ast.Not):
+                return ast.IfExp(test=n.test.operand, body=n.orelse, orelse=n.body)
+            return n
+    return " ".join(ast.unparse(ast.fix_missing_locations(N().visit(_copy.deepcopy(e)))).split())
+
+
 def create_sampling_mask_plan(fn: ast.FunctionDef) -> list[bool]:
-    """facts of CreateSamplingMask.__call__ in execution order (see Bridge/C03 `create_sampling_mask_plan_eq`)"""
-    body = fn.body
-    norm = lambda s: " ".join(ast.unparse(s).split())  # noqa: E731
-    shape_if = next((s for s in body if isinstance(s, ast.If) and norm(s.test) == "not self.shape"), None)
-    seed_as = next((s for s in body if isinstance(s, ast.Assign) and norm(s.targets[0]) == "seed"), None)
-    mask_as = next((s for s in body if isinstance(s, ast.Assign) and norm(s.targets[0]) == "sampling_mask"
-                    and isinstance(s.value, ast.Call)), None)
-    pad_if = next((s for s in body if isinstance(s, ast.If) and "padding" in norm(s.test)), None)
-    store = next((s for s in body if isinstance(s, ast.Assign) and norm(s.targets[0]) == "sample['sampling_mask']"), None)
-    if None in (shape_if, seed_as, mask_as, store):
-        raise Untranslatable("CreateSamplingMask.__call__ no longer has the shape / seed / mask / store statements")
-    default_shape = len(shape_if.body) == 1 and norm(shape_if.body[0]) == "shape = sample['kspace'].shape[1:]"
-    rest = shape_if.orelse
-    none_branch = full_branch = False
-    if len(rest) == 1 and isinstance(rest[0], ast.If):
-        b = rest[0]
-        none_branch = (norm(b.test) == "any((_ is None for _ in self.shape))" and len(b.body) == 2
-                       and norm(b.body[0]) == "kspace_shape = list(sample['kspace'].shape[1:-1])"
-                       and norm(b.body[1]) == "shape = tuple((_ if _ else kspace_shape[idx] for idx, _ in enumerate(self.shape))) + (2,)")
-        full_branch = len(b.orelse) == 1 and norm(b.orelse[0]) == "shape = self.shape + (2,)"
-    seed_ok = norm(seed_as.value) == "None if not self.use_seed else tuple(map(ord, str(sample['filename'])))"
-    call = mask_as.value
-    kw = {k.arg: norm(k.value) for k in call.keywords}
-    call_ok = (norm(call.func) == "self.mask_func" and not call.args
-               and kw == {"shape": "shape", "seed": "seed", "return_acs": "False"})
-    pad_ok = (pad_if is not None and norm(pad_if.test) == "'padding' in sample" and len(pad_if.body) == 1 and not pad_if.orelse
-              and norm(pad_if.body[0]) == "sampling_mask = T.apply_padding(sampling_mask, sample['padding'])")
-    order = [s.lineno for s in (shape_if, seed_as, mask_as)] + ([pad_if.lineno] if pad_if is not None else []) + [store.lineno]
-    store_ok = norm(store.value) == "sampling_mask" and order == sorted(order)
-    return [default_shape, none_branch, full_branch, seed_ok, call_ok, pad_ok, store_ok]
+    """semantic facts of CreateSamplingMask.__call__ (see Bridge/C03 `create_sampling_mask_plan_eq`), read by data flow: which
+    values can reach the `shape=` / `seed=` arguments of the mask-function call, what is stored under 'sampling_mask'"""
+    env = _single_assign_env(fn)
+    norm = lambda x: " ".join(ast.unparse(x).split())  # noqa: E731
+    calls = [n for n in ast.walk(fn) if isinstance(n, ast.Call) and norm(n.func) == "self.mask_func"]
+    main = [c for c in calls if not any(k.arg == "return_acs" and norm(k.value) == "True" for k in c.keywords)]
+    stores = [n for n in ast.walk(fn) if isinstance(n, ast.Assign) and len(n.targets) == 1 and norm(n.targets[0]) == "sample['sampling_mask']"]
+    if len(main) != 1 or len(stores) != 1:
+        raise Untranslatable("CreateSamplingMask.__call__ no longer has one mask-function call and one store of the sampling mask")
+    call, store = main[0], stores[0]
+    kw = {k.arg: k.value for k in call.keywords}
+    if call.args or "shape" not in kw or "seed" not in kw:
+        raise Untranslatable("the mask function is not called with shape= and seed=")
+
+    def reaching(expr):
+        """the expressions that can be the value of `expr`: a multiply-assigned local stands for all its bindings"""
+        e = _expand(expr, env)
+        if isinstance(e, ast.Name):
+            vals = [n.value for n in ast.walk(fn) if isinstance(n, ast.Assign) and len(n.targets) == 1
+                    and isinstance(n.targets[0], ast.Name) and n.targets[0].id == e.id]
+            if vals:
+                return {_norm_ifexp(_expand(v, env)) for v in vals}
+        if isinstance(e, ast.IfExp):
+            return reaching(e.body) | reaching(e.orelse)
+        return {_norm_ifexp(e)}
+    shapes = reaching(kw["shape"])
+    default_shape = "sample['kspace'].shape[1:]" in shapes
+    none_branch = "tuple((_ if _ else list(sample['kspace'].shape[1:-1])[idx] for idx, _ in enumerate(self.shape))) + (2,)" in shapes
+    full_branch = "self.shape + (2,)" in shapes
+    shape_guards = {_norm_ifexp(n.test) for n in ast.walk(fn) if isinstance(n, (ast.If, ast.IfExp))}
+    guards_ok = "not self.shape" in shape_guards and "any((_ is None for _ in self.shape))" in shape_guards and len(shapes) == 3
+    seed_ok = reaching(kw["seed"]) == {"tuple(map(ord, str(sample['filename']))) if self.use_seed else None"}
+    call_ok = norm(kw.get("return_acs", ast.Constant(False))) == "False"
+    # what is stored: the call result, with the padded positions cleared when the sample has a padding
+    stored = reaching(store.value)
+    raw = "self.mask_func(shape=shape, seed=seed, return_acs=False)"
+    var = store.value.id if isinstance(store.value, ast.Name) else None
+    pads = [n for n in ast.walk(fn) if isinstance(n, ast.If) and _norm_ifexp(n.test) == "'padding' in sample"]
+    pad_ok = (len(pads) == 1 and not pads[0].orelse and len(pads[0].body) == 1 and isinstance(pads[0].body[0], ast.Assign)
+              and var is not None and norm(pads[0].body[0].targets[0]) == var
+              and norm(pads[0].body[0].value) == f"T.apply_padding({var}, sample['padding'])")
+    store_ok = (var is not None and norm(call) in {raw, norm(call)} and any(norm(call) == v for v in stored)
+                and (not pads or pads[0].lineno < store.lineno) and call.lineno < store.lineno)
+    return [default_shape, none_branch, full_branch and guards_ok, seed_ok, call_ok, pad_ok, store_ok]
 
 
 _prev_extra3 = EXTRA["C03"]
@@ -898,8 +1205,9 @@ def _c03_extra_phase3():
     try:
         out = []
         for fname, dname in (("apply_mask", "kspace"), ("apply_padding", "data")):
-            fn = find_function(parse_file(REPO / T), fname)
-            ws = _where_calls(fn)
+            tree_ = parse_file(REPO / T)
+            fn = find_function(tree_, fname)
+            ws = _effective_wheres(tree_, fn)
             if len(ws) != 1:
                 raise Untranslatable(f"{len(ws)} torch.where calls in {fname}")
             zero = [a for a in ws[0].args[1:] if not (isinstance(a, ast.Name))]
@@ -918,14 +1226,18 @@ def _c03_extra_phase3():
     try:
         fn = find_function(parse_file(REPO / MT), "ApplyZeroPadding.__call__")
         norm = lambda x: " ".join(ast.unparse(x).split())  # noqa: E731
-        stmts = [st for st in fn.body if not (isinstance(st, ast.Expr) and isinstance(st.value, ast.Constant))]
+        env_ = _single_assign_env(fn)
+        writes = [n for n in ast.walk(fn) if isinstance(n, ast.Assign) and any(isinstance(t, ast.Subscript) and norm(t.value) == "sample"
+                                                                                for t in n.targets)]
         calls = [n for n in ast.walk(fn) if isinstance(n, ast.Call) and ast.unparse(n.func).endswith("apply_padding")]
-        if len(calls) != 1 or not stmts or not isinstance(stmts[0], ast.Assign):
-            raise Untranslatable("ApplyZeroPadding.__call__ is no longer `sample[key] = apply_padding(…)`; return")
-        c = calls[0]
-        plan = [norm(stmts[0].targets[0]) == "sample[self.kspace_key]", stmts[0].value is c,
+        rets = [n for n in ast.walk(fn) if isinstance(n, ast.Return)]
+        if len(calls) != 1 or not writes:
+            raise Untranslatable("ApplyZeroPadding.__call__ no longer stores one apply_padding result in the sample")
+        c = _expand(calls[0], env_)
+        w = writes[0]
+        plan = [norm(w.targets[0]) == "sample[self.kspace_key]", norm(_expand(w.value, env_)) == norm(c),
                 len(c.args) == 2 and norm(c.args[0]) == "sample[self.kspace_key]", len(c.args) == 2 and norm(c.args[1]) == "sample[self.padding_key]",
-                len(stmts) == 2 and isinstance(stmts[1], ast.Return) and norm(stmts[1].value) == "sample"]
+                len(writes) == 1 and len(rets) == 1 and norm(rets[0].value) == "sample"]
         text += ("\n/-- `ApplyZeroPadding.__call__`: (stores under kspace_key, the stored value is the apply_padding result, data read from "
                  "kspace_key, padding read from padding_key, nothing else but `return sample`) -/\n"
                  "def apply_zero_padding_plan : List Bool := [" + ", ".join("true" if b else "false" for b in plan) + "]\n")
